@@ -98,7 +98,7 @@ pub struct Ctx {
 /// (a wall-clock budget made busy machines report hangs that were none). The wall-clock limit
 /// is WALL_FACTOR times the budget; it catches a case that blocks without using CPU.
 /// The watchdog thread exits the worker with code 3 when either is exceeded.
-pub static CASE_BUDGET_MS: AtomicU64 = AtomicU64::new(20_000);
+pub static CASE_BUDGET_MS: AtomicU64 = AtomicU64::new(60_000);
 const WALL_FACTOR: u64 = 30;
 static CASE_STARTED_MS: AtomicU64 = AtomicU64::new(0);
 static CASE_STARTED_CPU_MS: AtomicU64 = AtomicU64::new(0);
